@@ -100,7 +100,7 @@ func init() {
 			}
 			return mk("NetRemoveBus", n, g.anyHandle(p))
 		}},
-		{"NetRemoveAllBuses", 1, func(g *Gen, p *Pool) (Op, bool) { return mk("NetRemoveAllBuses", g.r.pick(p.of(KNet))) }},
+		{"NetRemoveAllBuses", 2, func(g *Gen, p *Pool) (Op, bool) { return mk("NetRemoveAllBuses", g.r.pick(p.of(KNet))) }},
 		{"BusUpdateName", 5, func(g *Gen, p *Pool) (Op, bool) { return mk("BusUpdateName", g.r.pick(p.of(KBus)), g.name()) }},
 		{"BusAddNodeInterface", 10, func(g *Gen, p *Pool) (Op, bool) {
 			return mk("BusAddNodeInterface", g.r.pick(p.of(KBus)), g.ptr(liveIfaces(p)))
@@ -112,7 +112,7 @@ func init() {
 			}
 			return mk("BusRemoveNodeInterface", b, g.anyHandle(p))
 		}},
-		{"BusRemoveAllNodeInterfaces", 1, func(g *Gen, p *Pool) (Op, bool) { return mk("BusRemoveAllNodeInterfaces", g.r.pick(p.of(KBus))) }},
+		{"BusRemoveAllNodeInterfaces", 2, func(g *Gen, p *Pool) (Op, bool) { return mk("BusRemoveAllNodeInterfaces", g.r.pick(p.of(KBus))) }},
 		{"NodeUpdateName", 5, func(g *Gen, p *Pool) (Op, bool) { return mk("NodeUpdateName", g.r.pick(p.of(KNode)), g.name()) }},
 		{"NodeUpdateID", 5, func(g *Gen, p *Pool) (Op, bool) { return mk("NodeUpdateID", g.r.pick(p.of(KNode)), int64(g.r.below(4))) }},
 		{"NodeAddInterface", 2, func(g *Gen, p *Pool) (Op, bool) {
@@ -134,7 +134,7 @@ func init() {
 			}
 			return mk("IfRemoveSent", i, g.anyHandle(p))
 		}},
-		{"IfRemoveAllSent", 1, func(g *Gen, p *Pool) (Op, bool) { return mk("IfRemoveAllSent", g.r.pick(liveIfaces(p))) }},
+		{"IfRemoveAllSent", 3, func(g *Gen, p *Pool) (Op, bool) { return mk("IfRemoveAllSent", g.r.pick(liveIfaces(p))) }},
 		{"IfAddReceived", 5, func(g *Gen, p *Pool) (Op, bool) { return mk("IfAddReceived", g.r.pick(liveIfaces(p)), g.ptr(p.of(KMsg))) }},
 		{"IfRemoveReceived", 3, func(g *Gen, p *Pool) (Op, bool) {
 			i := g.r.pick(liveIfaces(p))
@@ -143,7 +143,7 @@ func init() {
 			}
 			return mk("IfRemoveReceived", i, g.anyHandle(p))
 		}},
-		{"IfRemoveAllReceived", 1, func(g *Gen, p *Pool) (Op, bool) { return mk("IfRemoveAllReceived", g.r.pick(liveIfaces(p))) }},
+		{"IfRemoveAllReceived", 2, func(g *Gen, p *Pool) (Op, bool) { return mk("IfRemoveAllReceived", g.r.pick(liveIfaces(p))) }},
 		{"MsgUpdateName", 6, func(g *Gen, p *Pool) (Op, bool) { return mk("MsgUpdateName", g.r.pick(p.of(KMsg)), g.name()) }},
 		{"MsgUpdateID", 8, func(g *Gen, p *Pool) (Op, bool) { return mk("MsgUpdateID", g.r.pick(p.of(KMsg)), int64(g.r.below(5))) }},
 		{"MsgSetStatic", 8, func(g *Gen, p *Pool) (Op, bool) { return mk("MsgSetStatic", g.r.pick(p.of(KMsg)), int64(g.r.below(5))) }},
@@ -163,7 +163,7 @@ func init() {
 			}
 			return mk("EnumRemoveValue", e, g.anyHandle(p))
 		}},
-		{"EnumRemoveAllValues", 1, func(g *Gen, p *Pool) (Op, bool) { return mk("EnumRemoveAllValues", g.r.pick(p.of(KEnum))) }},
+		{"EnumRemoveAllValues", 2, func(g *Gen, p *Pool) (Op, bool) { return mk("EnumRemoveAllValues", g.r.pick(p.of(KEnum))) }},
 		{"EvalUpdateName", 4, func(g *Gen, p *Pool) (Op, bool) { return mk("EvalUpdateName", g.r.pick(p.of(KEval)), g.name()) }},
 		{"EvalUpdateIndex", 5, func(g *Gen, p *Pool) (Op, bool) { return mk("EvalUpdateIndex", g.r.pick(p.of(KEval)), int64(g.r.below(8)-1)) }},
 		{"NewEnumValue", 1, func(g *Gen, p *Pool) (Op, bool) {
